@@ -654,8 +654,22 @@ macro_rules! caps_arms_no {
     }};
 }
 
+// with_state(..): not in the sync builder — whether `WithState` is `Sync` is the library's business,
+// the harness must build either way
+macro_rules! with_state_yes {
+    ($erase:ident, $cx:expr, $a:expr, $k:expr) => {
+        $erase!($cx, $a.with_state(Insp { n: 3, h: $k as u64 }))
+    };
+}
+macro_rules! with_state_no {
+    ($erase:ident, $cx:expr, $a:expr, $k:expr) => {{
+        let _ = $k;
+        $a
+    }};
+}
+
 macro_rules! define_builder {
-    ($name:ident, $handle:ident, $ibound:path, $erase:ident, $rec:ident, $value_arms:ident, $nested:ident, $caps_arms:ident) => {
+    ($name:ident, $handle:ident, $ibound:path, $erase:ident, $rec:ident, $value_arms:ident, $nested:ident, $caps_arms:ident, $wstate:ident) => {
         pub fn $name<'a, I>(g: &G, cx: &mut Cx<'a, $handle<'a, I>>) -> $handle<'a, I>
         where
             I: $ibound,
@@ -857,7 +871,7 @@ macro_rules! define_builder {
                             }
                         })),
                         // the sub-parser runs on its own copy of this state, on every invocation
-                        3 => $erase!(cx, a.with_state(Insp { n: 3, h: k as u64 })),
+                        3 => $wstate!($erase, cx, a, k),
                         4 => $erase!(cx, a.map(|v: Val| Ok::<Val, String>(v)).unwrapped()),
                         5 => $erase!(cx, a.with_ctx(())),
                         _ => $erase!(cx, chumsky::primitive::map_ctx::<_, Val, I, Ex<'a, I>, Ex<'a, I>, _>(|_: &()| (), a)),
@@ -975,9 +989,9 @@ macro_rules! define_builder {
     };
 }
 
-define_builder!(build_in, BP, Caps<'a>, erase_boxed, rec_boxed, value_arms_yes, nested_yes, caps_arms_yes);
-define_builder!(build_input_only_in, BP, Input<'a>, erase_boxed, rec_boxed, value_arms_no, nested_no, caps_arms_no);
-define_builder!(build_sync_in, SP, ValueInput<'a>, erase_sync, rec_none, value_arms_yes, nested_no, caps_arms_no);
+define_builder!(build_in, BP, Caps<'a>, erase_boxed, rec_boxed, value_arms_yes, nested_yes, caps_arms_yes, with_state_yes);
+define_builder!(build_input_only_in, BP, Input<'a>, erase_boxed, rec_boxed, value_arms_no, nested_no, caps_arms_no, with_state_yes);
+define_builder!(build_sync_in, SP, ValueInput<'a>, erase_sync, rec_none, value_arms_yes, nested_no, caps_arms_no, with_state_no);
 
 thread_local! {
     /// Per-thread arena behind the boxed builders (by-reference sub-parsers live here). Cleared by the
